@@ -80,6 +80,26 @@ func workerMain(args []string) {
 		}
 	}
 	emit("LOAD ok %d %d %d", time.Since(t0).Milliseconds(), nf, ni)
+	// instruction kinds without a case in lang.InstrSwitch (Spec.genericOnlyKinds): where do they occur?
+	mcGround, mcGeneric := 0, 0
+	for f := range ssautil.AllFunctions(prog) {
+		generic := f.TypeParams().Len() > 0 && len(f.TypeArgs()) == 0
+		for p := f.Parent(); p != nil && !generic; p = p.Parent() {
+			generic = p.TypeParams().Len() > 0 && len(p.TypeArgs()) == 0
+		}
+		for _, b := range f.Blocks {
+			for _, ins := range b.Instrs {
+				if _, ok := ins.(*ssa.MultiConvert); ok {
+					if generic {
+						mcGeneric++
+					} else {
+						mcGround++
+					}
+				}
+			}
+		}
+	}
+	emit("KINDS %d %d", mcGround, mcGeneric)
 
 	for _, job := range jobs {
 		name, cfgFile, _ := strings.Cut(job, "@")
